@@ -24,7 +24,8 @@ def candidate_set(X, y, candidates, missing_label=np.nan):
         return set(np.flatnonzero(is_missing(y, missing_label)).tolist()), len(X)
     cand = np.asarray(candidates)
     if cand.ndim == 1:
-        return set(int(i) for i in cand.tolist()), len(X)
+        # index arrays follow the numpy convention: a negative index denotes the same sample as its non-negative counterpart
+        return set(int(i) % len(X) for i in cand.tolist()), len(X)
     return set(range(len(cand))), len(cand)
 
 
